@@ -15,6 +15,7 @@ import ZlModel.Tld
 import ZlModel.TldGen
 import ZlModel.Config
 import ZlModel.Cli
+import ZlModel.Walkers
 open Zl Zl.Proto
 
 namespace Zl.Driver
@@ -363,6 +364,25 @@ def opTldGen (kind : String) (fields : List String) : String :=
     | some rows => showGEntries (sortRows rows)
   | _, _ => "bad-op"
 
+/-! ### walkers (C02) -/
+
+def opWalk (kind : String) (fields : List String) : String :=
+  match kind, fields with
+  | "wcc", [h] =>
+    match unhexBytes h with
+    | none => "bad-op"
+    | some bs => match Walkers.controlChar bs with
+      | .pass => "pass" | .warn => "warn" | .panic => "panic" | .outOfFuel => "out-of-fuel"
+  | "wbmp", [h] =>
+    match unhexBytes h with
+    | none => "bad-op"
+    | some bs => match Walkers.parseBMP bs with
+      | none => "panic" | some none => "err" | some (some out) => "ok " ++ hexOfBytes out
+  | "wna", [o] =>
+    match Walkers.isNameAttribute (if o == "-" then [] else parseOid o) with
+    | .val true => "1" | .val false => "0" | .panic => "panic"
+  | _, _ => "bad-op"
+
 def step (line : String) : String :=
   match line.splitOn "\t" with
   | "fw" :: rest => opFw rest
@@ -388,6 +408,9 @@ def step (line : String) : String :=
   | "dec" :: rest => opDec rest
   | "src" :: rest => opSrc rest
   | "srclist" :: rest => opSrcList rest
+  | "wcc" :: rest => opWalk "wcc" rest
+  | "wbmp" :: rest => opWalk "wbmp" rest
+  | "wna" :: rest => opWalk "wna" rest
   | _ => "bad-op"
 
 partial def loop (h : IO.FS.Stream) (out : IO.FS.Stream) : IO Unit := do
